@@ -2,12 +2,14 @@ package main
 
 import (
 	"fmt"
+	"os"
 	"go/constant"
 	"go/token"
 	"go/types"
 	"math"
 	"strings"
 	"sync"
+	"time"
 
 	"golang.org/x/tools/go/ssa"
 )
@@ -131,6 +133,9 @@ type Interp struct {
 	replaceFn      map[string]*ssa.Function
 	pureMode       bool // executing an if-conversion arm
 	initErrors     []string
+	deadline       time.Time
+	concParams     map[string]concSpec
+	pinned         map[*Term]uint64
 	model          map[string]uint64
 	modelFor       *Term
 	onceDone       map[Ptr]bool
@@ -258,13 +263,39 @@ func (in *Interp) constValue(c *ssa.Const) Value {
 
 func (in *Interp) callFunction(fn *ssa.Function, args []Value, bind []Value) (ret Value) {
 	if r, ok := in.replaceFn[fn.String()]; ok {
-		fn = r
+		// a wrapper stub may call the function it wraps
+		inside := false
+		for _, fr := range in.stack {
+			if fr.fn == r {
+				inside = true
+				break
+			}
+		}
+		if !inside {
+			fn = r
+		}
 	}
 	if handled, r := in.intrinsic(fn, args); handled {
 		return r
 	}
 	if fn.Blocks == nil {
 		in.fail("function without body: %s", fn.String())
+	}
+	if len(in.concParams) > 0 {
+		if cs, ok := in.concParams[fn.String()]; ok && cs.Idx < len(args) {
+			if t, ok := args[cs.Idx].(*Term); ok && !t.IsConst() {
+				var v int64
+				if pv, ok := in.evalPinned(t); ok {
+					v = signExt(pv, t.w)
+				} else if cs.Ranged {
+					v = in.concretizeRanged(t, cs.Lo, cs.Hi, "directive "+fn.Name())
+				} else {
+					v = in.concretize(t, "directive "+fn.Name())
+				}
+				args = append([]Value(nil), args...)
+				args[cs.Idx] = in.ctx.Const(t.w, uint64(v))
+			}
+		}
 	}
 	if len(in.stack) > 400 {
 		in.fail("call depth exceeded")
@@ -448,6 +479,9 @@ func (in *Interp) runBlocks(fr *frame) Value {
 			ins := instrs[i]
 			fr.cur = ins
 			in.steps++
+			if in.steps&0xfff == 0 && !in.deadline.IsZero() && time.Now().After(in.deadline) {
+				panic(engineErr{"per-path time budget exhausted @ " + in.where()})
+			}
 			if in.steps > in.maxSteps {
 				panic(engineErr{fmt.Sprintf("step budget %d exhausted @ %s", in.maxSteps, in.where())})
 			}
@@ -713,6 +747,7 @@ func (in *Interp) assumeTerm(t *Term) {
 		return
 	}
 	in.pc = append(in.pc, t)
+	in.ctx.noteAssumed(t)
 	if in.sol != nil {
 		in.sol.Assert(t)
 	}
@@ -746,9 +781,69 @@ func (in *Interp) feasible(t *Term) Result {
 	return in.feasibleM(t, true)
 }
 
+// evalPinned evaluates t when every leaf it depends on has been pinned to a
+// constant by an earlier concretisation on this path.
+func (in *Interp) evalPinned(t *Term) (v uint64, ok bool) {
+	if len(in.pinned) == 0 || t.size > 4000 {
+		return 0, false
+	}
+	defer func() {
+		if r := recover(); r != nil {
+			if _, is := r.(unpinned); is {
+				v, ok = 0, false
+				return
+			}
+			panic(r)
+		}
+	}()
+	memo := map[*Term]uint64{}
+	return evalWith(t, in.pinned, memo), true
+}
+
+type unpinned struct{}
+
+func evalWith(t *Term, pinned map[*Term]uint64, memo map[*Term]uint64) uint64 {
+	if v, ok := pinned[t]; ok {
+		return v
+	}
+	if v, ok := memo[t]; ok {
+		return v
+	}
+	if t.op == OpVar {
+		panic(unpinned{})
+	}
+	if t.op == OpConst {
+		return t.val
+	}
+	// evaluate children into a tiny const-only copy and reuse Eval's semantics
+	mk := func(x *Term) *Term {
+		if x == nil {
+			return nil
+		}
+		return &Term{op: OpConst, w: x.w, val: evalWith(x, pinned, memo)}
+	}
+	var r uint64
+	if t.op == OpIte {
+		// lazy: only the taken arm needs to be pinned
+		if evalWith(t.a, pinned, memo) == 1 {
+			r = evalWith(t.b, pinned, memo)
+		} else {
+			r = evalWith(t.c, pinned, memo)
+		}
+	} else {
+		tmp := &Term{op: t.op, w: t.w, a: mk(t.a), b: mk(t.b), c: mk(t.c), val: t.val}
+		r = Eval(tmp, nil, map[*Term]uint64{})
+	}
+	memo[t] = r
+	return r
+}
+
 func (in *Interp) branch(cond *Term) bool {
 	if cond.IsConst() {
 		return cond.val == 1
+	}
+	if v, ok := in.evalPinned(cond); ok {
+		return v == 1
 	}
 	if in.pureMode {
 		panic(ifConvAbort{})
@@ -830,7 +925,14 @@ func (in *Interp) evalModel(t *Term) bool {
 
 // feasibleM checks sat(pc ∧ t); with keep it stores the model as the model of
 // the path condition when t is then assumed by the caller.
+func (in *Interp) checkDeadline() {
+	if !in.deadline.IsZero() && time.Now().After(in.deadline) {
+		panic(engineErr{"per-path time budget exhausted @ " + in.where()})
+	}
+}
+
 func (in *Interp) feasibleM(t *Term, keep bool) Result {
+	in.checkDeadline()
 	if t.IsConst() {
 		if t.val == 1 {
 			return Sat
@@ -882,8 +984,12 @@ func (in *Interp) concretize(t *Term, why string) int64 {
 	if in.concrete {
 		in.fail("symbolic value in concrete mode (%s)", why)
 	}
+	if v, ok := in.evalPinned(t); ok {
+		return signExt(v, t.w)
+	}
 	pin := func(v int64) int64 {
 		in.assumeTerm(in.ctx.Eq(t, in.ctx.Const(t.w, uint64(v))))
+		in.pin(t, uint64(v))
 		return v
 	}
 	var excl []int64
@@ -907,11 +1013,33 @@ func (in *Interp) concretize(t *Term, why string) int64 {
 	for _, e := range excl {
 		q = in.ctx.And(q, in.ctx.Not(in.ctx.Eq(t, in.ctx.Const(t.w, uint64(e)))))
 	}
+	in.checkDeadline()
+	tq := time.Now()
 	r, m := in.sol.Check(q, []*Term{in.valueVar(t)})
+	if d := os.Getenv("GOSYM_DUMP"); d != "" && time.Since(tq) > time.Second {
+		decls, names := Script(append(append([]*Term{}, in.pc...), q, t))
+		var sb strings.Builder
+		sb.WriteString("(set-logic ALL)\n" + decls)
+		for _, n := range names[:len(names)-1] {
+			sb.WriteString("(assert " + n + ")\n")
+		}
+		sb.WriteString("(check-sat)\n(get-value (" + names[len(names)-1] + "))\n")
+		os.WriteFile(fmt.Sprintf("%s/slow_%d_%s.smt2", d, t.id, r), []byte(sb.String()), 0644)
+	}
 	if r == Unsat {
 		panic(pathAbort{"no more concretisation candidates"})
 	}
 	if r == Unknown {
+		if d := os.Getenv("GOSYM_DUMP"); d != "" {
+			decls, names := Script(append(append([]*Term{}, in.pc...), q, t))
+			var sb strings.Builder
+			sb.WriteString("(set-logic ALL)\n" + decls)
+			for _, n := range names[:len(names)-1] {
+				sb.WriteString("(assert " + n + ")\n")
+			}
+			sb.WriteString("(check-sat)\n(get-value (" + names[len(names)-1] + "))\n")
+			os.WriteFile(fmt.Sprintf("%s/conc_%d.smt2", d, t.id), []byte(sb.String()), 0644)
+		}
 		in.fail("solver unknown while concretising (%s)", why)
 	}
 	v := signExt(m[in.valueVar(t).name], t.w)
@@ -921,6 +1049,56 @@ func (in *Interp) concretize(t *Term, why string) int64 {
 	in.decs = append(in.decs, Decision{Kind: 'c', Val: v})
 	in.pos++
 	return pin(v)
+}
+
+// concretizeRanged case-splits t over lo..hi (no model enumeration); the range
+// is checked to be complete once, on the path that opens the split.
+func (in *Interp) concretizeRanged(t *Term, lo, hi int64, why string) int64 {
+	c := in.ctx
+	opening := in.pos >= len(in.decs)
+	if opening {
+		k, _ := scalarKindOfWidth(t.w)
+		_ = k
+		out := c.Or(c.Slt(c.signed64(t), c.Const(64, uint64(lo))), c.Slt(c.Const(64, uint64(hi)), c.signed64(t)))
+		in.checkDeadline()
+		if r, _ := in.sol.Check(out, nil); r != Unsat {
+			in.fail("ranged concretisation: value may lie outside %d..%d (%s, solver says %s)", lo, hi, why, r)
+		}
+	}
+	v := in.choose(lo, hi)
+	eq := c.Eq(t, c.Const(t.w, uint64(v)))
+	if in.feasible(eq) == Unsat {
+		panic(pathAbort{"ranged concretisation value infeasible"})
+	}
+	in.assumeTerm(eq)
+	in.pin(t, uint64(v))
+	in.res.Concretizations++
+	return v
+}
+
+func scalarKindOfWidth(w uint8) (scalarKind, bool) { return scalarKind{w: w}, true }
+
+// signed64 widens an unsigned quantity (lengths, widths) to 64 bits for range checks.
+func (c *Ctx) signed64(t *Term) *Term {
+	if t.w == 64 {
+		return t
+	}
+	return c.Zext(t, 64)
+}
+
+func (in *Interp) pin(t *Term, v uint64) {
+	if in.pinned == nil {
+		in.pinned = map[*Term]uint64{}
+	}
+	for {
+		in.pinned[t] = v & mask(t.w)
+		// a pinned zero/sign extension pins its operand too
+		if (t.op == OpZext || t.op == OpSext) && !t.a.IsConst() {
+			t = t.a
+			continue
+		}
+		return
+	}
 }
 
 // valueVar returns a variable constrained equal to t so its model value can be read.
